@@ -167,8 +167,9 @@ class MinFlowDecompCycles(walkmodel.AbstractWalkModelDiGraph):
         self.flow_attr = flow_attr
         self.weight_type = weight_type
         self.subset_constraints_coverage = subset_constraints_coverage
-        self.optimization_options = optimization_options
-        self.solver_options = solver_options
+        self.optimization_options = optimization_options if optimization_options is not None else {}
+        # None stands for the default (no option given), as in the k-models
+        self.solver_options = solver_options if solver_options is not None else {}
         self.time_limit = self.solver_options.get("time_limit", sw.SolverWrapper.time_limit)
         self.solve_time_start = None
         self.solve_time_ilp_total = 0
